@@ -35,15 +35,23 @@ Bump(f, names) ==
   [k \in DOMAIN f \cup names |->
      (IF k \in DOMAIN f THEN f[k] ELSE 0) + (IF k \in names THEN 1 ELSE 0)]
 
+\* One event is judged ONCE, as an expression: TLC never caches LET definitions that stand directly in an action (their
+\* value could depend on the successor under construction), so a LET around the primed conjuncts re-evaluated every
+\* clause once per reference (dozens of times per event).  The verdict is bound through a singleton set instead.
+Judge(e, h, at) ==
+  LET post == ApplyUpd(h, e.upd)
+      cl   == Clauses(e, h, post) \o DriftClauses(e, h, post)
+      bad  == SelectSeq(cl, LAMBDA c : ~c[3])
+  IN [post  |-> post,
+      fails |-> [i \in DOMAIN bad |-> <<at, bad[i][1]>>],
+      names |-> {cl[i][1] : i \in {j \in DOMAIN cl : cl[j][2]}}]
+
 Step ==
   /\ l <= Len(Batch[tid].ev)
-  /\ LET e    == Batch[tid].ev[l]
-         post == ApplyUpd(heap, e.upd)
-         cl   == Clauses(e, heap, post) \o DriftClauses(e, heap, post)
-         bad  == SelectSeq(cl, LAMBDA c : ~c[3])
-     IN /\ heap' = post
-        /\ fails' = fails \o [i \in DOMAIN bad |-> <<l, bad[i][1]>>]
-        /\ nt' = Bump(nt, {cl[i][1] : i \in {j \in DOMAIN cl : cl[j][2]}})
+  /\ \E j \in {Judge(Batch[tid].ev[l], heap, l)} :
+        /\ heap' = j.post
+        /\ fails' = fails \o j.fails
+        /\ nt' = Bump(nt, j.names)
   /\ l' = l + 1
   /\ tid' = tid
 
